@@ -29,6 +29,50 @@ Proof.
 Qed.
 Print Assumptions C21_replica_implies_optin.
 
+(** the same for every entry point of the Client interface: Do, DoStream, Receive ask for the command;
+    DoMulti, DoMultiStream for every command of the batch; standalone DoCache / DoMultiCache /
+    Dedicated and sentinel Dedicated (unless ReplicaOnly) never leave the primary *)
+Theorem C21_entry_points :
+  (forall e has_str optins has_sel sel nnodes nrep rnd i,
+      standalone_entry e has_str optins has_sel sel nnodes nrep rnd = Ok (DReplica i) ->
+      has_str = true /\
+      match e with
+      | EDo | EDoStream | EReceive => hd false optins = true
+      | EDoMulti | EDoMultiStream => forall b, In b optins -> b = true
+      | _ => False
+      end) /\
+  (forall e replica_only has_str optins,
+      sentinel_entry e replica_only has_str optins = SReplica ->
+      replica_only = true \/
+      (has_str = true /\
+       match e with
+       | EDo | EDoCache | EDoStream | EReceive => hd false optins = true
+       | EDoMulti | EDoMultiCache | EDoMultiStream => forall b, In b optins -> b = true
+       | EDedicated => False
+       end)).
+Proof. split; [exact standalone_entry_replica|exact sentinel_entry_replica]. Qed.
+Print Assumptions C21_entry_points.
+
+(** cluster DoMultiStream streams one batch to one node: a single command of the batch for which
+    SendToReplicas is false — keyed or without key slot, first, in the middle or last — keeps the
+    batch on the write table (the primary of the slot's shard by C21_cluster_primary_without_optin) *)
+Theorem C21_cluster_multistream : forall t has_str cs nsel d,
+  (has_str = false \/ exists c, In c cs /\ b_replica c = false) ->
+  cluster_multistream t has_str cs nsel = Ok d ->
+  exists slot, d = cluster_pick t slot false nsel /\
+               match slot with Some s => d = CNode (tb_w t s) | None => d = CAny end.
+Proof. exact cluster_multistream_no_optin. Qed.
+Print Assumptions C21_cluster_multistream.
+
+(** cluster Do / DoCache / DoStream / Receive / Dedicated: without opt-in (Dedicated: always) a keyed
+    command goes to the write table.  A command without key slot goes to an arbitrary connection of
+    the client ([CAny]) — see the known finding cluster.go:_pick / keyless-command-any-node *)
+Theorem C21_cluster_entry_single : forall e t has_str c nsel,
+  (e = EDedicated \/ has_str = false \/ b_replica c = false) ->
+  cluster_entry_single e t has_str c nsel = match b_slot c with Some s => CNode (tb_w t s) | None => CAny end.
+Proof. exact cluster_entry_single_no_optin. Qed.
+Print Assumptions C21_cluster_entry_single.
+
 (** cluster: a command that did not opt in, on a client that is not ReplicaOnly, goes to the primary
     of the shard that lists its slot — for every topology, in every iteration order of the groups *)
 Theorem C21_cluster_primary_without_optin : forall c gs t s nsel,
